@@ -60,6 +60,10 @@ def gen_hierarchy(rng, max_flows=5, depth_bias=False, with_groups=True, with_whe
                         lines.append("    match %s()" % ("E%d" % rng.randint(1, alphabet)))
                 else:
                     lines.append("  %s %s" % (how, fname(c)))
+                    if how == "activate" and rng.random() < 0.25:
+                        # the same flow activates the same child once more (reference counting)
+                        lines.append("  match E%d()" % rng.randint(1, alphabet))
+                        lines.append("  activate %s" % fname(c))
             elif sl == "match":
                 if with_groups and rng.random() < 0.2:
                     a, b = rng.sample(range(1, alphabet + 1), 2) if alphabet >= 2 else (1, 1)
